@@ -157,58 +157,83 @@ func (r *WordRenderer) renderParagraph(node *ast.Paragraph) (ast.WalkStatus, err
 
 // renderInlineContent 渲染内联内容（文本、强调、链接等）
 func (r *WordRenderer) renderInlineContent(node ast.Node, para *document.Paragraph) {
+	r.renderInlineContentWithFormat(node, para, nil)
+}
+
+// mergeInlineFormat 返回 base 叠加 extra 之后的格式（两者都不被修改）
+func mergeInlineFormat(base *document.TextFormat, extra document.TextFormat) *document.TextFormat {
+	merged := document.TextFormat{}
+	if base != nil {
+		merged = *base
+	}
+	merged.Bold = merged.Bold || extra.Bold
+	merged.Italic = merged.Italic || extra.Italic
+	merged.Strike = merged.Strike || extra.Strike
+	merged.Underline = merged.Underline || extra.Underline
+	if extra.FontFamily != "" {
+		merged.FontFamily = extra.FontFamily
+	}
+	if extra.FontColor != "" {
+		merged.FontColor = extra.FontColor
+	}
+	if extra.FontSize != 0 {
+		merged.FontSize = extra.FontSize
+	}
+	return &merged
+}
+
+// renderInlineContentWithFormat 渲染内联内容；format 是外层强调/链接等已经确定的格式，
+// 嵌套的内联元素在它的基础上叠加自己的格式（例如粗体里的斜体、强调里的代码）
+func (r *WordRenderer) renderInlineContentWithFormat(node ast.Node, para *document.Paragraph, format *document.TextFormat) {
 	for child := node.FirstChild(); child != nil; child = child.NextSibling() {
 		switch n := child.(type) {
 		case *ast.Text:
 			text := string(n.Segment.Value(r.source))
-			para.AddFormattedText(text, nil)
-			
+			para.AddFormattedText(text, format)
+
 			// 处理软换行（单个\n）
 			// goldmark将单个\n解析为多个Text节点，第一个节点的SoftLineBreak为true
 			// 在Markdown中，软换行通常应该被渲染为空格
 			if n.SoftLineBreak() {
-				para.AddFormattedText(" ", nil)
+				para.AddFormattedText(" ", format)
 			}
 
 		case *ast.Emphasis:
-			text := r.extractTextContent(n)
 			// goldmark中，level=1是斜体，level=2是粗体
 			if n.Level == 2 {
-				// 使用粗体格式
-				format := &document.TextFormat{Bold: true}
-				para.AddFormattedText(text, format)
+				r.renderInlineContentWithFormat(n, para, mergeInlineFormat(format, document.TextFormat{Bold: true}))
 			} else {
-				// 使用斜体格式
-				format := &document.TextFormat{Italic: true}
-				para.AddFormattedText(text, format)
+				r.renderInlineContentWithFormat(n, para, mergeInlineFormat(format, document.TextFormat{Italic: true}))
 			}
 
 		case *ast.CodeSpan:
 			text := r.extractTextContent(n)
 			// 使用CodeChar样式的格式
-			format := &document.TextFormat{
+			para.AddFormattedText(text, mergeInlineFormat(format, document.TextFormat{
 				FontFamily: "Consolas",
 				FontColor:  "D73A49", // GitHub风格的红色
-			}
-			para.AddFormattedText(text, format)
+			}))
 
 		case *ast.Link:
-			text := r.extractTextContent(n)
 			// 简单处理链接，后续可以扩展为超链接
-			format := &document.TextFormat{
+			r.renderInlineContentWithFormat(n, para, mergeInlineFormat(format, document.TextFormat{
 				FontColor: "0000FF", // 蓝色
-			}
-			para.AddFormattedText(text, format)
+			}))
+
+		case *ast.AutoLink:
+			// 自动链接（<http://...> 或 GFM 裸链接）：可见文本就是链接本身
+			para.AddFormattedText(string(n.Label(r.source)), mergeInlineFormat(format, document.TextFormat{
+				FontColor: "0000FF", // 蓝色
+			}))
 
 		case *ast.Image:
 			r.renderImageInline(n, para)
 		case *extast.Strikethrough:
 			// 处理删除线
-			text := r.extractTextContent(n)
-			format := &document.TextFormat{
-				Strike: true,
-			}
-			para.AddFormattedText(text, format)
+			r.renderInlineContentWithFormat(n, para, mergeInlineFormat(format, document.TextFormat{Strike: true}))
+
+		case *extast.TaskCheckBox:
+			// 复选框符号由列表项渲染时加上
 
 		default:
 			// 检查是否为行内数学公式
@@ -219,7 +244,7 @@ func (r *WordRenderer) renderInlineContent(node ast.Node, para *document.Paragra
 			// 对于其他类型，尝试提取文本内容
 			text := r.extractTextContent(n)
 			if text != "" {
-				para.AddFormattedText(text, nil)
+				para.AddFormattedText(text, format)
 			}
 		}
 	}
@@ -242,41 +267,60 @@ func (r *WordRenderer) renderList(node *ast.List) (ast.WalkStatus, error) {
 
 // renderListItem 渲染列表项
 func (r *WordRenderer) renderListItem(node *ast.ListItem) (ast.WalkStatus, error) {
-	// 检查是否包含任务复选框
-	hasTaskCheckBox := false
-	for child := node.FirstChild(); child != nil; child = child.NextSibling() {
-		if _, ok := child.(*extast.TaskCheckBox); ok {
-			hasTaskCheckBox = true
-			break
-		}
-	}
-
-	// 如果包含任务复选框且启用了任务列表，让TaskCheckBox节点处理
-	if hasTaskCheckBox && r.opts.EnableTaskList {
-		// 任务列表项将由TaskCheckBox节点处理
-		return ast.WalkContinue, nil
-	}
-
-	// 普通列表项处理
-	text := r.extractTextContent(node)
-
 	// 简单的列表项处理，后续可以扩展为真正的列表格式
 	// 这里暂时使用缩进和符号来模拟列表
 	indent := strings.Repeat("  ", r.listLevel-1)
-	bulletText := "• " + text
 
-	r.doc.AddParagraph(indent + bulletText)
+	for child := node.FirstChild(); child != nil; child = child.NextSibling() {
+		switch n := child.(type) {
+		case *ast.TextBlock, *ast.Paragraph:
+			prefix := "• "
+			// 任务列表项：第一个内联节点是复选框
+			if box, ok := n.FirstChild().(*extast.TaskCheckBox); ok && r.opts.EnableTaskList {
+				prefix = "☐ "
+				if box.IsChecked {
+					prefix = "☑ "
+				}
+			}
+			para := r.doc.AddParagraph(indent + prefix)
+			r.renderInlineContent(n, para)
+		case *ast.List:
+			// 嵌套列表：各项成为自己的段落，而不是并进上一级列表项的文字里
+			r.renderList(n)
+		default:
+			if text := r.extractTextContent(n); text != "" {
+				r.doc.AddParagraph(indent + text)
+			}
+		}
+	}
 
 	return ast.WalkSkipChildren, nil
 }
 
 // renderBlockquote 渲染引用块
 func (r *WordRenderer) renderBlockquote(node *ast.Blockquote) (ast.WalkStatus, error) {
-	text := r.extractTextContent(node)
-
-	// 创建引用段落，使用Quote样式
-	para := r.doc.AddParagraph(text)
-	para.SetStyle("Quote")
+	rendered := false
+	for child := node.FirstChild(); child != nil; child = child.NextSibling() {
+		switch n := child.(type) {
+		case *ast.Paragraph, *ast.TextBlock:
+			// 引用中的每个段落成为一个Quote样式的段落，保留其中的强调等格式
+			para := r.doc.AddParagraph("")
+			para.SetStyle("Quote")
+			r.renderInlineContent(n, para)
+			rendered = true
+		default:
+			if text := r.extractTextContent(n); text != "" {
+				para := r.doc.AddParagraph(text)
+				para.SetStyle("Quote")
+				rendered = true
+			}
+		}
+	}
+	if !rendered {
+		// 空引用：保持原来的行为，输出一个空的引用段落
+		para := r.doc.AddParagraph("")
+		para.SetStyle("Quote")
+	}
 
 	return ast.WalkSkipChildren, nil
 }
@@ -414,6 +458,8 @@ func (r *WordRenderer) extractTextContentRecursive(node ast.Node, buf *strings.B
 		switch n := child.(type) {
 		case *ast.Text:
 			buf.Write(n.Segment.Value(r.source))
+		case *ast.AutoLink:
+			buf.Write(n.Label(r.source))
 		default:
 			r.extractTextContentRecursive(child, buf)
 		}
